@@ -102,6 +102,12 @@ func (s *Service) evictKeysAtBackground() {
 func (s *Service) evictKeys() {
 	partID := uint64(rand.Intn(int(s.config.PartitionCount)))
 	part := s.primary.PartitionByID(partID)
+	if part.OwnerCount() == 0 || !part.Owner().CompareByName(s.rt.This()) {
+		// Only the partition owner evicts. deleteOnCluster removes the key from the
+		// previous owners and the backups as well. A previous owner which still holds
+		// data would send that delete to itself while it holds the fragment's lock.
+		return
+	}
 	part.Map().Range(func(name, tmp interface{}) bool {
 		f := tmp.(*fragment)
 		s.scanFragmentForEviction(partID, name.(string), f)
